@@ -6,6 +6,7 @@ package main
 // merge heap components and phis with ite.
 
 import (
+	"regexp"
 	"fmt"
 	"go/constant"
 	"go/token"
@@ -82,6 +83,10 @@ type Frame struct {
 	callOrd  map[string]int
 	atIdx    int
 	seenCalls map[string]bool
+	// latchLoop: set while the clauses of a back edge are evaluated: a loop-carried variable
+	// then denotes the value it had during the iteration that just ended (its phi at the
+	// loop head), not the value the post statement has already given it
+	latchLoop *loopInfo
 	callLog  map[string]*callRec
 	callSeq  int
 	callOrdOf map[*ssa.CallCommon]int
@@ -119,6 +124,9 @@ type autoCand struct {
 	name  string
 	// clause: a migrated loop invariant (see orphanInvs) instead of a bound on phi
 	clause *Clause
+	// required: a migrated property (tagged) invariant - an ordinary obligation of the loop
+	// it landed on, never dropped
+	required bool
 }
 
 type Exec struct {
@@ -130,10 +138,17 @@ type Exec struct {
 	noteSet   map[string]bool
 	maxDepth  int
 	dropAuto  map[string]bool
+	// rename tolerance: renames maps a local name that untagged loop clauses use but the
+	// function no longer has to the candidate local tried in its place; unknownLoopIdents
+	// collects such names while generating.
+	renames           map[string]string
+	unknownLoopIdents map[string]bool
 	// orphanInvs: conjuncts of loop invariants the contract of the function under verification
 	// gives for loops it no longer has (the loop was moved into a helper). They are tried as
 	// candidate invariants on the loops of helpers that have no contract of their own.
 	orphanInvs []*Clause
+	// orphanPlaced: tagged orphan invariants that found a helper loop to hold on
+	orphanPlaced map[*Clause]bool
 	dispatchDepth int
 	stack     []*ssa.Function
 	noDefine  int
@@ -793,10 +808,36 @@ func (x *Exec) evalLoopClause(fr *Frame, inv *Clause, st *State, point *ssa.Basi
 				panic(r)
 			}
 			x.note("loop invariant of %s dropped: it cannot be evaluated against the current code (%s): %s", funcKey(fr.fn), string(ce), inv.Src)
+			if m := unknownIdentRe.FindStringSubmatch(string(ce)); m != nil && fr.top {
+				if x.unknownLoopIdents == nil {
+					x.unknownLoopIdents = map[string]bool{}
+				}
+				x.unknownLoopIdents[m[1]] = true
+			}
 			f, ok = "true", false
 		}
 	}()
+	if inv.Tag == "" && x.renames != nil {
+		return x.evalClauseRenaming(fr, inv, st, point), true
+	}
 	return x.evalClause(fr, inv, st, point, nil), true
+}
+
+var unknownIdentRe = regexp.MustCompile(`unknown identifier "([A-Za-z_][A-Za-z0-9_]*)"`)
+
+// evalClauseRenaming is evalClause with the rename table in force.
+func (x *Exec) evalClauseRenaming(fr *Frame, c *Clause, st *State, point *ssa.BasicBlock) (out string) {
+	env := x.frameEnv(fr, st, point, nil)
+	env.allowRename = true
+	defer func() {
+		if r := recover(); r != nil {
+			if ce, ok := r.(contractError); ok {
+				panic(contractError(fmt.Sprintf("%s:%d: %s", c.File, c.Line, string(ce))))
+			}
+			panic(r)
+		}
+	}()
+	return env.evalBool(c.E)
 }
 
 // tryLoopClause evaluates a clause that may not make sense at this loop at all: any
@@ -1012,10 +1053,62 @@ func (x *Exec) loopHead(fr *Frame, li *loopInfo, entry *State, phiEntry map[*ssa
 			if !ok1 || !ok2 {
 				continue
 			}
+			if cl.Tag != "" {
+				// a property invariant of a loop that moved into this helper: it must hold here
+				if x.orphanPlaced == nil {
+					x.orphanPlaced = map[*Clause]bool{}
+				}
+				x.orphanPlaced[cl] = true
+				tname := fmt.Sprintf("%s#%s@loop%d.migrated", fname, cl.Tag, li.ordinal)
+				x.addObl(&Obligation{Name: tname + ".entry", Kind: "inv-entry", Tag: cl.Tag, Func: fname, Pos: x.prog.pos(li.minPos), Guard: entry.guard,
+					Formula: fe, Src: "property invariant (its loop moved into this helper): " + cl.Src})
+				li.autoInv = append(li.autoInv, autoCand{name: tname, clause: cl, required: true})
+				x.assume(head.guard, fh)
+				continue
+			}
 			x.addObl(&Obligation{Name: name + ".entry", Kind: "inv-entry", Auto: name, Func: fname, Pos: x.prog.pos(li.minPos), Guard: entry.guard,
 				Formula: fe, Src: "candidate invariant (migrated from the caller's contract): " + cl.Src})
 			li.autoInv = append(li.autoInv, autoCand{name: name, clause: cl})
 			x.assume(head.guard, fh)
+		}
+	}
+	// 3c. cross-loop candidates (drift fallback, see crossLoopFallback in verify.go)
+	if fr.top && fr.contract != nil && x.renames["$cross-loop"] != "" {
+		var ords []int
+		for n := range fr.contract.Loops {
+			ords = append(ords, n)
+		}
+		sort.Ints(ords)
+		ci := 0
+		for _, n := range ords {
+			for _, inv := range fr.contract.Loops[n].Invariants {
+				if inv.Tag != "" {
+					continue
+				}
+				for _, e := range splitConjuncts(inv.E) {
+					ci++
+					cl := &Clause{Kind: inv.Kind, Src: e.String(), E: e, Line: inv.Line, File: inv.File}
+					name := fmt.Sprintf("%s#loop%d.cross%d", fname, li.ordinal, ci)
+					if x.dropAuto[name] {
+						continue
+					}
+					for phi, v := range phiEntry {
+						fr.vals[phi] = v
+					}
+					fe, ok1 := x.tryLoopClause(fr, cl, entry, li.head)
+					for phi, v := range li.headPhis {
+						fr.vals[phi] = v
+					}
+					fh, ok2 := x.tryLoopClause(fr, cl, head, li.head)
+					if !ok1 || !ok2 {
+						continue
+					}
+					x.addObl(&Obligation{Name: name + ".entry", Kind: "inv-entry", Auto: name, Func: fname, Pos: x.prog.pos(li.minPos), Guard: entry.guard,
+						Formula: fe, Src: "candidate invariant (from another loop's invariants): " + cl.Src})
+					li.autoInv = append(li.autoInv, autoCand{name: name, clause: cl})
+					x.assume(head.guard, fh)
+				}
+			}
 		}
 	}
 	// 3. assume invariants
@@ -1077,6 +1170,15 @@ func (x *Exec) loopLatch(fr *Frame, li *loopInfo, latch *ssa.BasicBlock, st *Sta
 		fr.vals[phi] = v
 	}
 	for _, ac := range li.autoInv {
+		if ac.clause != nil && ac.required {
+			f, ok := x.tryLoopClause(fr, ac.clause, st, li.head)
+			if !ok {
+				f = "false"
+			}
+			x.addObl(&Obligation{Name: ac.name + ".step", Kind: "inv-step", Tag: ac.clause.Tag,
+				Func: fname, Pos: x.prog.pos(li.minPos), Guard: cond, Formula: f, Src: "property invariant (its loop moved into this helper): " + ac.clause.Src})
+			continue
+		}
 		if ac.clause != nil {
 			if f, ok := x.tryLoopClause(fr, ac.clause, st, li.head); ok {
 				x.addObl(&Obligation{Name: ac.name + ".step", Kind: "inv-step", Auto: ac.name,
@@ -1157,7 +1259,16 @@ func (x *Exec) execBlock(fr *Frame, b *ssa.BasicBlock, st *State) {
 	setEdge := func(succ *ssa.BasicBlock, cond string) {
 		c := x.define("e", "Bool", cond)
 		if li := fr.loops[succ]; li != nil && li.blocks[b] && succ.Dominates(b) {
+			// at the back edge every instruction of this block has been executed: names
+			// defined in it are visible to latch clauses
+			// names at a back edge: everything the loop body defined is visible; the step of an
+			// induction variable (`index++`, recognised in lookupLocal as phi +/- constant) is
+			// not - a latch clause speaks about the iteration that just ended
+			fr.atIdx = len(b.Instrs)
+			fr.latchLoop = li
 			x.loopLatch(fr, li, b, st, c)
+			fr.latchLoop = nil
+			fr.atIdx = 0
 			return
 		}
 		key := [2]*ssa.BasicBlock{b, succ}
